@@ -12,4 +12,20 @@ def matches(finding, case):
     return bool(fn and fn(case))
 
 
-REGIONS = {}
+def c12_fmt4_bounded_nominal(case):
+    """duration/end notation, n >= 2 repetitions, interval with years or months"""
+    d = case.get("dur", {})
+    return (case.get("check") == "iter" and case.get("fmt") == 4 and (case.get("reps") or 0) >= 2 and
+            bool(d.get("years") or d.get("months")))
+
+
+def c12_fmt3_bounded_nominal(case):
+    """start/duration notation, n >= 3 repetitions (n = 2 is exact by construction),
+    interval with years or months"""
+    d = case.get("dur", {})
+    return (case.get("check") == "iter" and case.get("fmt") == 3 and (case.get("reps") or 0) >= 3 and
+            bool(d.get("years") or d.get("months")))
+
+
+REGIONS = {"c12_fmt4_bounded_nominal": c12_fmt4_bounded_nominal,
+           "c12_fmt3_bounded_nominal": c12_fmt3_bounded_nominal}
